@@ -27,6 +27,13 @@ CHECKS = {
         "note": "Trusted: simkit, CPython audit events as the complete set of disk-touching calls, pydsdl for the dependency closure. 'Influences the output' is under-approximated by (templates read) + (DSDL closure). One known finding (upstream issue #58) is listed in KNOWN_FINDINGS.json.",
         "design_ref": "DESIGN.md section 2, C08",
     },
+    "C11": {
+        "level": "exploration",
+        "technique": "deterministic simulation: real nnvg runs under scheduler-chosen ambient worlds (cwd, output location and spelling, dirty directories, enumeration order, hash seed) recorded at the I/O seam; containment, write-once, reference path set, cross-root reference resolution over two-run histories; in-run namespace-tree invariants",
+        "text": "Claimed for the I/O-observable clauses. Every run is judged at the audit-hook seam: each mutating event must target a path inside the output directory (or create its parents) and the rest of the sandbox snapshot must be unchanged, for --outdir spelled relative, ./x/, ../y/x, absolute and with trailing slash under several cwds; no path is opened for writing twice; the created non-support files equal a 15-line reference path set built from nunavut's own path-stropping filter; after generating root A and then the roots it refers to into the same directory, every include/import target named by A's files exists. The tree clause is an in-run invariant on build_namespace_tree's result and is only sampled over generated namespace sets.",
+        "note": "Trusted: simkit, nunavut's 'path' stropping filter (C09 not claimed), regular expressions recognising include/import targets, pydsdl. Names folded by one-way stropping are not generated.",
+        "design_ref": "DESIGN.md section 2, C11",
+    },
     "C12": {
         "level": "fault_enumeration",
         "technique": "deterministic simulation: seeded histories of nnvg invocations and directory edits on a simulated disk with fault injection (EACCES by a simulated unprivileged owner, I/O errors, torn writes, crash mid-run, failing external program); oracle = pristine-world reference run; ddmin-minimised replay files",
